@@ -126,3 +126,527 @@ Proof.
   replace (- (5 / 5 / / 25)) with (IZR (-25)) by (simpl; field).
   rewrite Flocq.Core.Raux.Zfloor_IZR. reflexivity.
 Qed.
+
+(* ======================================================================================== *)
+(* EXTENSION — the glue around the cores above (Model/Synthesis.v, Proofs/SynthesisProofs.v):
+   argument handling and options of make_toneburst / make_toneburst2 (and next_fast_len),
+   the weight table of rfft_to_hilbert as the code builds it, rfft_to_hilbert on n-dimensional
+   arrays along any (negative) axis, the analytic signal of a real signal, the dispatcher
+   timeshift_spectra, and the whole of transfer_func_to_timetraces (input reshaping, guards,
+   the loop over scatterers and timetraces, linearity, sample-aligned delays end to end).
+   Exact arithmetic (NumR); complex numbers are pairs = Coquelicot's C; the one-dimensional
+   inverse FFT is the finite Fourier sum Dft.idft (`idft1`). *)
+From Coq Require Import Lra Lia.
+From Arim Require Import Model.Synthesis Proofs.SynthesisProofs.
+
+(* -- make_toneburst: arguments and options ------------------------------------------------ *)
+(* the five ValueErrors, in the order of the code: an earlier one hides the later ones *)
+Theorem make_toneburst_error_order : forall (cycles f dt : R) (ns_opt : option Z) (wrap an : bool),
+  let mt := make_toneburst NumR cycles f dt ns_opt wrap an in
+  (dt <= 0 -> mt = inl TbNegStep) /\
+  (0 < dt -> f <= 0 -> mt = inl TbNegFreq) /\
+  (0 < dt -> 0 < f -> cycles <= 0 -> mt = inl TbNegCycles) /\
+  (0 < dt -> 0 < f -> 0 < cycles -> (forall n, ns_opt = Some n -> (n <= 0)%Z) -> ns_opt <> None ->
+     mt = inl TbNegSamples) /\
+  (0 < dt -> 0 < f -> 0 < cycles -> (forall n, ns_opt = Some n -> (0 < n < pulse_len NumR cycles f dt)%Z) ->
+     ns_opt <> None -> mt = inl TbTooShort).
+Proof. exact make_toneburst_errors. Qed.
+
+(* accepted exactly when Signal.toneburst_args_ok holds, whatever wrap / analytical *)
+Theorem make_toneburst_accepted_iff : forall (cycles f dt : R) (ns_opt : option Z) (wrap an : bool),
+  (exists l, make_toneburst NumR cycles f dt ns_opt wrap an = inr l)
+  <-> toneburst_args_ok NumR cycles f dt ns_opt = true.
+Proof. exact make_toneburst_accepts. Qed.
+
+(* full_toneburst[:len_pulse] = toneburst never fails: the five errors above are the only ones *)
+Theorem make_toneburst_slice_assignment_never_fails : forall (cycles f dt : R) ns_opt wrap an,
+  make_toneburst NumR cycles f dt ns_opt wrap an <> inl TbBroadcast.
+Proof. exact make_toneburst_never_broadcast. Qed.
+
+(* analytical=False: the array IS Signal.toneburst_at (wrap=False) / toneburst_wrapped_at
+   (wrap=True), of length num_samples (None: exactly the pulse) — so every theorem of the
+   first part (symmetric, peak 1, zero outside, wrapped peak at 0) is about the returned array *)
+Theorem make_toneburst_real_array : forall cycles f dt : R, 0 < dt -> 0 < f -> 0 < cycles ->
+  forall (ns_opt : option Z) (wrap : bool),
+  let ns := match ns_opt with Some n => n | None => pulse_len NumR cycles f dt end in
+  (0 < ns)%Z -> (pulse_len NumR cycles f dt <= ns)%Z ->
+  exists l, make_toneburst NumR cycles f dt ns_opt wrap false = inr l /\
+    length l = Z.to_nat ns /\
+    forall k, (0 <= k < ns)%Z ->
+      nth (Z.to_nat k) l (0, 0)
+      = ((if wrap then toneburst_wrapped_at NumR cycles f dt ns k else toneburst_at NumR cycles f dt ns k), 0).
+Proof. exact make_toneburst_real_samples. Qed.
+
+(* analytical=True, any num_samples / wrap: same length, real parts = the real toneburst *)
+Theorem make_toneburst_analytic_real_part_is_toneburst : forall cycles f dt : R, 0 < dt -> 0 < f -> 0 < cycles ->
+  forall (ns_opt : option Z) (wrap : bool),
+  let ns := match ns_opt with Some n => n | None => pulse_len NumR cycles f dt end in
+  (0 < ns)%Z -> (pulse_len NumR cycles f dt <= ns)%Z ->
+  exists l la, make_toneburst NumR cycles f dt ns_opt wrap false = inr l /\
+    make_toneburst NumR cycles f dt ns_opt wrap true = inr la /\ length la = length l /\
+    forall k, (0 <= k < ns)%Z ->
+      fst (nth (Z.to_nat k) la (0, 0)) = fst (nth (Z.to_nat k) l (0, 0)) /\ snd (nth (Z.to_nat k) l (0, 0)) = 0.
+Proof. exact SynthesisProofs.make_toneburst_analytic_real_part. Qed.
+
+(* analytical=True, wrap=False: the imaginary part is the Hann-windowed SINE, antisymmetric about
+   the centre; the envelope |.| is the Hann window, equal to 1 at the centre sample ONLY; the centre
+   sample is 1+0j; zero padding after the pulse *)
+Theorem make_toneburst_analytic_array : forall cycles f dt : R, 0 < dt -> 0 < f -> 0 < cycles ->
+  forall ns_opt : option Z,
+  let M := pulse_len NumR cycles f dt in
+  let ns := match ns_opt with Some n => n | None => M end in
+  (0 < ns)%Z -> (M <= ns)%Z ->
+  exists la, make_toneburst NumR cycles f dt ns_opt false true = inr la /\
+    (forall k, (0 <= k < M)%Z ->
+       snd (nth (Z.to_nat k) la (0, 0)) = hanning NumR M k * sin (2 * PI * dt * f * IZR (k - M / 2)) /\
+       snd (nth (Z.to_nat (M - 1 - k)) la (0, 0)) = - snd (nth (Z.to_nat k) la (0, 0)) /\
+       Cmod (nth (Z.to_nat k) la (0, 0)) = hanning NumR M k /\
+       (k <> (M / 2)%Z -> Cmod (nth (Z.to_nat k) la (0, 0)) < 1)) /\
+    nth (Z.to_nat (M / 2)) la (0, 0) = (1, 0) /\
+    (forall k, (M <= k < ns)%Z -> nth (Z.to_nat k) la (0, 0) = (0, 0)).
+Proof. exact make_toneburst_analytic_samples. Qed.
+
+(* wrap=True is _rotate_array of the wrap=False result by half a pulse: entry k is entry
+   (k + len_pulse // 2) mod num_samples — real or analytic *)
+Theorem make_toneburst_wrap_rotates : forall cycles f dt : R, 0 < dt -> 0 < f -> 0 < cycles ->
+  forall (ns_opt : option Z) (an : bool),
+  let M := pulse_len NumR cycles f dt in
+  let ns := match ns_opt with Some n => n | None => M end in
+  (0 < ns)%Z -> (M <= ns)%Z ->
+  exists l0 l1, make_toneburst NumR cycles f dt ns_opt false an = inr l0 /\
+    make_toneburst NumR cycles f dt ns_opt true an = inr l1 /\ length l1 = length l0 /\
+    forall k, (0 <= k < ns)%Z ->
+      nth (Z.to_nat k) l1 (0, 0) = nth (Z.to_nat ((k + M / 2) mod ns)) l0 (0, 0).
+Proof. exact make_toneburst_wrap_is_rotation. Qed.
+
+(* -- make_toneburst2 ------------------------------------------------------------------------ *)
+(* an error of make_toneburst comes out unchanged, whatever the padding options *)
+Theorem make_toneburst2_propagates_errors : forall (cycles f dt : R) (nfl : Z -> option Z) nb na an fast e,
+  make_toneburst NumR cycles f dt None false an = inl e ->
+  make_toneburst2 NumR nfl cycles f dt nb na an fast = inl (Tb2Toneburst e).
+Proof. exact make_toneburst2_error. Qed.
+
+(* layout for num_before, num_after >= 0 and ANY final length L >= (nb + 1 + na) * n (nfl = the
+   fast-length function, use_fast_len on or off): L samples; real parts = Signal.toneburst2_at;
+   zeros before m = nb*n and from m + n on; imaginary parts 0 unless analytical; the declared
+   t0_idx lies inside, holds 1+0j, and the time axis is 0 there *)
+Theorem make_toneburst2_layout : forall (cycles f dt : R) (nfl : Z -> option Z) (nb na : Z) (an fast : bool) (L : Z),
+  0 < dt -> 0 < f -> 0 < cycles -> (0 <= nb)%Z -> (0 <= na)%Z ->
+  let M := pulse_len NumR cycles f dt in
+  (if fast then nfl (nb * M + M + na * M)%Z else Some (nb * M + M + na * M)%Z) = Some L ->
+  (nb * M + M + na * M <= L)%Z ->
+  exists r, make_toneburst2 NumR nfl cycles f dt nb na an fast = inr r /\
+    length (tb2_samples r) = Z.to_nat L /\
+    (forall k, (0 <= k < L)%Z -> fst (nth (Z.to_nat k) (tb2_samples r) (0, 0)) = toneburst2_at NumR cycles f dt nb k) /\
+    (forall k, (0 <= k < nb * M \/ nb * M + M <= k < L)%Z -> nth (Z.to_nat k) (tb2_samples r) (0, 0) = (0, 0)) /\
+    (an = false -> forall k, (0 <= k < L)%Z -> snd (nth (Z.to_nat k) (tb2_samples r) (0, 0)) = 0) /\
+    (0 <= tb2_t0 r < L)%Z /\
+    nth (Z.to_nat (tb2_t0 r)) (tb2_samples r) (0, 0) = (1, 0) /\
+    time_sample NumR (tb2_start r) (tb2_step r) (tb2_t0 r) = 0.
+Proof. exact make_toneburst2_samples. Qed.
+
+(* with scipy's next_fast_len: the length is the smallest 5-smooth number >= (nb+1+na)*n (less
+   than twice that); use_fast_len only appends zeros: same t0_idx, same time origin, same samples *)
+Theorem make_toneburst2_fast_len_only_pads : forall (cycles f dt : R) (nb na : Z) (an : bool),
+  0 < dt -> 0 < f -> 0 < cycles -> (0 <= nb)%Z -> (0 <= na)%Z ->
+  let M := pulse_len NumR cycles f dt in
+  let total := (nb * M + M + na * M)%Z in
+  exists rf rs L, make_toneburst2 NumR next_fast_len cycles f dt nb na an true = inr rf /\
+    make_toneburst2 NumR next_fast_len cycles f dt nb na an false = inr rs /\
+    next_fast_len total = Some L /\ (total <= L < 2 * total)%Z /\ is_5smooth L = true /\
+    (forall m, (total <= m < L)%Z -> is_5smooth m = false) /\
+    length (tb2_samples rf) = Z.to_nat L /\ length (tb2_samples rs) = Z.to_nat total /\
+    tb2_t0 rf = tb2_t0 rs /\ tb2_start rf = tb2_start rs /\
+    forall k, (0 <= k < total)%Z -> nth (Z.to_nat k) (tb2_samples rf) (0, 0) = nth (Z.to_nat k) (tb2_samples rs) (0, 0).
+Proof. exact make_toneburst2_lengths. Qed.
+
+(* scipy.fftpack.next_fast_len: the smallest number 2^a 3^b 5^c that is >= target *)
+Theorem next_fast_len_smallest_smooth : forall target : Z, (1 <= target)%Z ->
+  exists r, next_fast_len target = Some r /\ (target <= r < 2 * target)%Z /\
+    is_5smooth r = true /\ smooth5 r /\ forall m, (target <= m < r)%Z -> is_5smooth m = false.
+Proof. exact next_fast_len_spec. Qed.
+
+Theorem next_fast_len_zero_and_negative :
+  next_fast_len 0 = Some 0%Z /\ forall t, (t < 0)%Z -> next_fast_len t = None.
+Proof. exact next_fast_len_edge. Qed.
+
+(* -- rfft_to_hilbert ------------------------------------------------------------------------ *)
+(* the table built by the code's assignments (h[0] = h[n//2] = 1; h[1:n//2] = 2 / h[0] = 1;
+   h[1:(n+1)//2] = 2 on zeros(numfreq)) is Signal.hilbert_weight, for ANY table length *)
+Theorem hilbert_table_is_hilbert_weight : forall (n : Z) (numfreq : nat) (l : list Z), (0 <= n)%Z ->
+  hilbert_table n numfreq = Some l ->
+  length l = numfreq /\
+  forall k, (k < numfreq)%nat -> nth k l 0%Z = hilbert_weight n (Z.of_nat numfreq) (Z.of_nat k).
+Proof. exact hilbert_table_spec. Qed.
+
+(* ... and building it raises IndexError exactly for an empty table, or an even n whose Nyquist
+   bin n//2 lies beyond the table (a spectrum with fewer than n//2 + 1 bins) *)
+Theorem hilbert_table_index_error_iff : forall (n : Z) (numfreq : nat), (0 <= n)%Z ->
+  (hilbert_table n numfreq = None <-> numfreq = 0%nat \/ (Z.even n = true /\ (Z.of_nat numfreq <= n / 2)%Z)).
+Proof. exact hilbert_table_none_iff. Qed.
+
+(* every failure of rfft_to_hilbert, any numeric instance, any inverse transform *)
+Theorem rfft_to_hilbert_error_branches : forall (T : Type) (N : Num T) (ifft1 : (nat -> cx) -> nat -> Z -> cx)
+    (shape : list nat) (xf : list nat -> cx) (n axis : Z),
+  let r := rfft_to_hilbert N ifft1 shape xf n axis in
+  (shape = nil -> r = inl HIndexError) /\
+  (shape <> nil -> (axis < - Z.of_nat (length shape) \/ Z.of_nat (length shape) <= axis)%Z -> r = inl HIndexError) /\
+  (forall ax, shape <> nil -> py_index (Z.of_nat (length shape)) axis = Some ax ->
+     hilbert_table n (nth ax shape O) = None -> r = inl HIndexError) /\
+  (forall ax h, shape <> nil -> py_index (Z.of_nat (length shape)) axis = Some ax ->
+     hilbert_table n (nth ax shape O) = Some h -> (n < 1)%Z -> r = inl HValueError).
+Proof. exact @rfft_to_hilbert_errors. Qed.
+
+(* success on an n-dimensional array: same number of dimensions, the frequency axis is replaced
+   IN PLACE by n samples, every other axis keeps its length; each entry is the 1-D inverse
+   transform, along that axis, of the weighted (zero-padded / truncated) column through it *)
+Theorem rfft_to_hilbert_shape_and_entries : forall (T : Type) (N : Num T) (ifft1 : (nat -> cx) -> nat -> Z -> cx)
+    (shape : list nat) (xf : list nat -> cx) (n axis : Z) (ax : nat) (h : list Z),
+  shape <> nil -> py_index (Z.of_nat (length shape)) axis = Some ax ->
+  hilbert_table n (nth ax shape O) = Some h -> (1 <= n)%Z ->
+  exists oshape out, rfft_to_hilbert N ifft1 shape xf n axis = inr (oshape, out) /\
+    length oshape = length shape /\ nth ax oshape O = Z.to_nat n /\
+    (forall j, j <> ax -> nth j oshape O = nth j shape O) /\
+    forall idx, out idx =
+      ifft1 (fun k => if (k <? nth ax shape O)%nat
+                      then cscale N (nofZ N (nth k h 0%Z)) (xf (upd_nth idx ax k)) else c0 N)
+            (Z.to_nat n) (Z.of_nat (nth ax idx O)).
+Proof. exact @rfft_to_hilbert_success. Qed.
+
+(* axis and axis - ndim are the same call; in particular the default axis=-1 is the last axis *)
+Theorem rfft_to_hilbert_negative_axis_same : forall (T : Type) (N : Num T) (ifft1 : (nat -> cx) -> nat -> Z -> cx)
+    (shape : list nat) (xf : list nat -> cx) (n a : Z), (0 <= a < Z.of_nat (length shape))%Z ->
+  rfft_to_hilbert N ifft1 shape xf n (a - Z.of_nat (length shape)) = rfft_to_hilbert N ifft1 shape xf n a.
+Proof. exact @rfft_to_hilbert_negative_axis. Qed.
+
+(* with the finite Fourier sum as inverse transform: entries by the weight FORMULA, under the
+   exact condition for the table to exist *)
+Theorem rfft_to_hilbert_fourier_entries : forall (shape : list nat) (xf : list nat -> C) (n axis : Z) (ax : nat),
+  shape <> nil -> py_index (Z.of_nat (length shape)) axis = Some ax -> (1 <= n)%Z ->
+  (1 <= nth ax shape O)%nat -> (Z.even n = true -> (n / 2 < Z.of_nat (nth ax shape O))%Z) ->
+  exists out, rfft_to_hilbert NumR idft1 shape xf n axis = inr (upd_nth shape ax (Z.to_nat n), out) /\
+    forall idx, out idx = hilbert_entry n (nth ax shape O) (fun k => xf (upd_nth idx ax k)) (Z.of_nat (nth ax idx O)).
+Proof. exact rfft_to_hilbert_entry. Qed.
+
+(* linear in the spectrum; a zero spectrum gives a zero signal *)
+Theorem rfft_to_hilbert_linear : forall (n : Z) (numfreq : nat),
+  (forall c1 c2 j, hilbert_entry n numfreq (fun k => Cplus (c1 k) (c2 k)) j
+                   = Cplus (hilbert_entry n numfreq c1 j) (hilbert_entry n numfreq c2 j)) /\
+  (forall c col j, hilbert_entry n numfreq (fun k => Cmult c (col k)) j = Cmult c (hilbert_entry n numfreq col j)) /\
+  (forall j, hilbert_entry n numfreq (fun _ => RtoC 0) j = RtoC 0).
+Proof. exact hilbert_entry_linear. Qed.
+
+(* on the half spectrum (n//2 + 1 bins of the transform) of a length-n signal x this IS
+   scipy.signal.hilbert(x) = ifft(fft(x) * h), for both parities of n *)
+Theorem analytic_signal_is_hilbert : forall (x : nat -> C) (n : Z) (col : nat -> C) (j : Z), (1 <= n)%Z ->
+  (forall k, (k < Z.to_nat (n / 2 + 1))%nat -> col k = dft x (Z.to_nat n) k) ->
+  hilbert_entry n (Z.to_nat (n / 2 + 1)) col j
+  = idft (fun k => Cmult (RtoC (IZR (scipy_hilbert_weight n (Z.of_nat k)))) (dft x (Z.to_nat n) k)) (Z.to_nat n) j.
+Proof. exact hilbert_entry_is_hilbert. Qed.
+
+(* ... and the analytic signal of a REAL signal has that signal as its real part (conjugate
+   symmetry of the spectrum + the mirrored weights add up to 2) *)
+Theorem analytic_signal_real_part : forall (xr : nat -> R) (n j : nat), (j < n)%nat ->
+  fst (idft (fun k => Cmult (RtoC (IZR (scipy_hilbert_weight (Z.of_nat n) (Z.of_nat k))))
+                            (dft (fun m => RtoC (xr m)) n k)) n (Z.of_nat j)) = xr j.
+Proof. exact analytic_real_part. Qed.
+
+(* -- timeshift_spectra ------------------------------------------------------------------------ *)
+(* dispatcher: one frequency in the transfer function is broadcast over the frequency axis,
+   otherwise frequency by frequency; any other number of frequencies is a ValueError *)
+Theorem timeshift_spectra_dispatch : forall (nxf : nat) (H : nat -> nat -> nat -> C) (delays : nat -> nat -> R) (freqs : list R),
+  (nxf = 1%nat \/ nxf = length freqs ->
+     exists sh, timeshift_spectra NumR nxf H delays freqs = Some sh /\
+       forall s t k, sh s t k = Cmult (phase_factor NumR (nth k freqs 0) (delays s t)) (H s t (bcast_idx nxf k))) /\
+  (nxf <> 1%nat -> nxf <> length freqs -> timeshift_spectra NumR nxf H delays freqs = None).
+Proof. intros nxf H delays freqs. exact (conj (timeshift_spectra_ok nxf H delays freqs) (timeshift_spectra_mismatch nxf H delays freqs)). Qed.
+
+(* its phase factor is the one of Dft.shift_spectrum on the axis rfftfreq(n, dt) — so
+   dft_shift_integer / shift_is_circular_delay above speak about this code — and is 1 for a zero delay *)
+Theorem timeshift_spectra_is_shift_spectrum : forall (X : nat -> C) (n : nat) (dt delay : R) (k : nat),
+  Cmult (phase_factor NumR (INR k / (INR n * dt)) delay) (X k) = shift_spectrum X n dt delay k.
+Proof. exact timeshift_is_shift_spectrum. Qed.
+
+Theorem timeshift_zero_delay : forall fr : R, phase_factor NumR fr 0 = RtoC 1.
+Proof. exact phase_factor_zero. Qed.
+
+(* -- transfer_func_to_timetraces ---------------------------------------------------------------- *)
+(* a 2-D transfer function / 1-D delays are the 3-D / 2-D case with ONE scatterer *)
+Theorem transfer_func_2d_is_one_scatterer : forall (T : Type) (N : Num T) (ifft1 : (nat -> cx) -> nat -> Z -> cx)
+    (tt tb : time_axis) (freqs : list T) (tf : list cx) (t0 : Z) (timetraces : option (nat -> Z -> cx))
+    (nt nxf : nat) (H2 : nat -> nat -> cx) (d1 : nat -> T),
+  transfer_func_to_timetraces N ifft1 (TF2 nt nxf H2) (D1 nt d1) tt tb freqs tf t0 timetraces
+  = transfer_func_to_timetraces N ifft1 (TF3 1 nt nxf (fun _ => H2)) (D2 1 nt (fun _ => d1)) tt tb freqs tf t0 timetraces
+  /\ transfer_func_to_timetraces N ifft1 (TF2 nt nxf H2) (D2 1 nt (fun _ => d1)) tt tb freqs tf t0 timetraces
+  = transfer_func_to_timetraces N ifft1 (TF3 1 nt nxf (fun _ => H2)) (D2 1 nt (fun _ => d1)) tt tb freqs tf t0 timetraces
+  /\ transfer_func_to_timetraces N ifft1 (TF3 1 nt nxf (fun _ => H2)) (D1 nt d1) tt tb freqs tf t0 timetraces
+  = transfer_func_to_timetraces N ifft1 (TF3 1 nt nxf (fun _ => H2)) (D2 1 nt (fun _ => d1)) tt tb freqs tf t0 timetraces.
+Proof. exact @tf_2d_is_one_scatterer. Qed.
+
+(* guards, in the order of the code.  (1) shapes *)
+Theorem transfer_func_shape_errors : forall (T : Type) (N : Num T) (ifft1 : (nat -> cx) -> nat -> Z -> cx)
+    (tt tb : time_axis) (freqs : list T) (tf : list cx) (t0 : Z) (timetraces : option (nat -> Z -> cx))
+    (ns nt nxf : nat) (H : nat -> nat -> nat -> cx) (ds dtt : nat) (d : nat -> nat -> T),
+  (forall din, transfer_func_to_timetraces N ifft1 TFother din tt tb freqs tf t0 timetraces = inl TfUnpack) /\
+  ((ds <> ns \/ dtt <> nt)%nat ->
+   transfer_func_to_timetraces N ifft1 (TF3 ns nt nxf H) (D2 ds dtt d) tt tb freqs tf t0 timetraces = inl TfAssertShape /\
+   transfer_func_to_timetraces N ifft1 (TF3 ns nt nxf H) Dother tt tb freqs tf t0 timetraces = inl TfAssertShape /\
+   ((ns <> 1 \/ dtt <> nt)%nat ->
+    transfer_func_to_timetraces N ifft1 (TF3 ns nt nxf H) (D1 dtt (d O)) tt tb freqs tf t0 timetraces = inl TfAssertShape) /\
+   ((ds <> 1 \/ dtt <> nt)%nat ->
+    transfer_func_to_timetraces N ifft1 (TF2 nt nxf (H O)) (D2 ds dtt d) tt tb freqs tf t0 timetraces = inl TfAssertShape)).
+Proof.
+  intros T N ifft1 tt tb freqs tf t0 timetraces ns nt nxf H ds dtt d.
+  exact (conj (tf_error_unpack N ifft1 tt tb freqs tf t0 timetraces)
+              (tf_error_shape N ifft1 tt tb freqs tf t0 timetraces ns nt nxf H ds dtt d)).
+Qed.
+
+(* (2) different steps -> NotImplementedError; (3) a delay before the time origin ->
+   AssertionError; (4) a transfer function with neither 1 nor len(toneburst_freq) frequencies
+   -> ValueError; each reached only when the earlier guards pass *)
+Theorem transfer_func_guards : forall (ifft1 : (nat -> cx) -> nat -> Z -> cx) (ns nt nxf : nat)
+    (H : nat -> nat -> nat -> cx) (d : nat -> nat -> R) (start dt : R) (len : Z) (bstart bdt : R) (n : Z)
+    (freqs : list R) (tf : list cx) (t0 : Z) (timetraces : option (nat -> Z -> cx)),
+  let run := transfer_func_to_timetraces NumR ifft1 (TF3 ns nt nxf H) (D2 ns nt d)
+               (mkTime start dt len) (mkTime bstart bdt n) freqs tf t0 timetraces in
+  (dt <> bdt -> run = inl TfNotImplemented) /\
+  (dt = bdt -> (exists s t, (s < ns)%nat /\ (t < nt)%nat /\ d s t < start) -> run = inl TfAssertNegative) /\
+  (dt = bdt -> (forall s t, (s < ns)%nat -> (t < nt)%nat -> start <= d s t) ->
+     nxf <> 1%nat -> nxf <> length freqs -> run = inl TfFreqMismatch).
+Proof. exact tf_error_guards_R. Qed.
+
+(* (5) past the guards, an echo that does not lie inside the window is reported by the model
+   (outside the property's domain), never written partially *)
+Theorem transfer_func_echo_outside_window : forall (numscat numtt nxf : nat) (H : nat -> nat -> nat -> C)
+    (d : nat -> nat -> R) (start bstart dt : R) (len n t0 : Z) (freqs : list R) (tf : list C)
+    (timetraces : option (nat -> Z -> cx)) (s0 t0' : nat),
+  length tf = length freqs -> (nxf = 1 \/ nxf = length freqs)%nat -> (1 <= n)%Z -> (1 <= length freqs)%nat ->
+  (Z.even n = true -> (n / 2 < Z.of_nat (length freqs))%Z) ->
+  (forall s t, (s < numscat)%nat -> (t < numtt)%nat -> 0 <= rel_delay d start s t) ->
+  (s0 < numscat)%nat -> (t0' < numtt)%nat -> place_ok (q_of d start dt s0 t0') t0 n len = false ->
+  transfer_func_to_timetraces NumR idft1 (TF3 numscat numtt nxf H) (D2 numscat numtt d)
+    (mkTime start dt len) (mkTime bstart dt n) freqs tf t0 timetraces = inl TfOutside.
+Proof. exact tf_outside. Qed.
+
+(* THE SYNTHESIS, for any real delays that fit: timetrace t, sample j =
+     given[t][j] + sum over scatterers s of the analytic response of (s, t) — the inverse
+     transform of h * exp(-2j pi f rem(s,t)) * H[s][t] * toneburst_f — read at
+     j - (q(s,t) - t0) when that lies in [0, n), where q(s,t), rem(s,t) split the delay of THAT
+     pair relative to the time origin of the window.  Rows >= numtimetraces are untouched. *)
+Theorem transfer_func_closed_form : forall (numscat numtt nxf : nat) (H : nat -> nat -> nat -> C)
+    (d : nat -> nat -> R) (start dt : R) (len n t0 : Z) (freqs : list R) (tf : list C),
+  length tf = length freqs -> (nxf = 1 \/ nxf = length freqs)%nat -> (1 <= n)%Z -> (1 <= length freqs)%nat ->
+  (Z.even n = true -> (n / 2 < Z.of_nat (length freqs))%Z) ->
+  (forall s t, (s < numscat)%nat -> (t < numtt)%nat -> 0 <= rel_delay d start s t) ->
+  (forall s t, (s < numscat)%nat -> (t < numtt)%nat -> place_ok (q_of d start dt s t) t0 n len = true) ->
+  forall (bstart : R) (timetraces : option (nat -> Z -> cx)),
+  exists out,
+    transfer_func_to_timetraces NumR idft1 (TF3 numscat numtt nxf H) (D2 numscat numtt d)
+      (mkTime start dt len) (mkTime bstart dt n) freqs tf t0 timetraces = inr (numtt, len, out) /\
+    forall t j, out t j =
+      if (t <? numtt)%nat
+      then Cplus (out0_of timetraces t j)
+                 (csum (fun s => echo (response nxf H d start dt n freqs tf s t) n (q_of d start dt s t) t0 j) numscat)
+      else out0_of timetraces t j.
+Proof. exact tf_formula. Qed.
+
+(* a zero transfer function leaves the (given or fresh) timetraces as they are *)
+Theorem transfer_func_zero : forall (numscat numtt nxf : nat) (d : nat -> nat -> R) (start bstart dt : R)
+    (len n t0 : Z) (freqs : list R) (tf : list C),
+  length tf = length freqs -> (nxf = 1 \/ nxf = length freqs)%nat -> (1 <= n)%Z -> (1 <= length freqs)%nat ->
+  (Z.even n = true -> (n / 2 < Z.of_nat (length freqs))%Z) ->
+  (forall s t, (s < numscat)%nat -> (t < numtt)%nat -> 0 <= rel_delay d start s t) ->
+  (forall s t, (s < numscat)%nat -> (t < numtt)%nat -> place_ok (q_of d start dt s t) t0 n len = true) ->
+  forall (H : nat -> nat -> nat -> C) (timetraces : option (nat -> Z -> C)),
+  (forall s t k, H s t k = RtoC 0) ->
+  exists out,
+    transfer_func_to_timetraces NumR idft1 (TF3 numscat numtt nxf H) (D2 numscat numtt d)
+      (mkTime start dt len) (mkTime bstart dt n) freqs tf t0 timetraces = inr (numtt, len, out) /\
+    forall t j, out t j = out0_of timetraces t j.
+Proof. exact tf_zero. Qed.
+
+(* additive and homogeneous in the transfer function (same delays, fresh timetraces) *)
+Theorem transfer_func_additive : forall (numscat numtt nxf : nat) (d : nat -> nat -> R) (start bstart dt : R)
+    (len n t0 : Z) (freqs : list R) (tf : list C),
+  length tf = length freqs -> (nxf = 1 \/ nxf = length freqs)%nat -> (1 <= n)%Z -> (1 <= length freqs)%nat ->
+  (Z.even n = true -> (n / 2 < Z.of_nat (length freqs))%Z) ->
+  (forall s t, (s < numscat)%nat -> (t < numtt)%nat -> 0 <= rel_delay d start s t) ->
+  (forall s t, (s < numscat)%nat -> (t < numtt)%nat -> place_ok (q_of d start dt s t) t0 n len = true) ->
+  forall H1 H2 H12 : nat -> nat -> nat -> C, (forall s t k, H12 s t k = Cplus (H1 s t k) (H2 s t k)) ->
+  exists o1 o2 o12,
+    transfer_func_to_timetraces NumR idft1 (TF3 numscat numtt nxf H1) (D2 numscat numtt d)
+      (mkTime start dt len) (mkTime bstart dt n) freqs tf t0 None = inr (numtt, len, o1) /\
+    transfer_func_to_timetraces NumR idft1 (TF3 numscat numtt nxf H2) (D2 numscat numtt d)
+      (mkTime start dt len) (mkTime bstart dt n) freqs tf t0 None = inr (numtt, len, o2) /\
+    transfer_func_to_timetraces NumR idft1 (TF3 numscat numtt nxf H12) (D2 numscat numtt d)
+      (mkTime start dt len) (mkTime bstart dt n) freqs tf t0 None = inr (numtt, len, o12) /\
+    forall t j, o12 t j = Cplus (o1 t j) (o2 t j).
+Proof. exact tf_additive. Qed.
+
+Theorem transfer_func_homogeneous : forall (numscat numtt nxf : nat) (d : nat -> nat -> R) (start bstart dt : R)
+    (len n t0 : Z) (freqs : list R) (tf : list C),
+  length tf = length freqs -> (nxf = 1 \/ nxf = length freqs)%nat -> (1 <= n)%Z -> (1 <= length freqs)%nat ->
+  (Z.even n = true -> (n / 2 < Z.of_nat (length freqs))%Z) ->
+  (forall s t, (s < numscat)%nat -> (t < numtt)%nat -> 0 <= rel_delay d start s t) ->
+  (forall s t, (s < numscat)%nat -> (t < numtt)%nat -> place_ok (q_of d start dt s t) t0 n len = true) ->
+  forall (c : C) (H1 Hc : nat -> nat -> nat -> C), (forall s t k, Hc s t k = Cmult c (H1 s t k)) ->
+  exists o1 oc,
+    transfer_func_to_timetraces NumR idft1 (TF3 numscat numtt nxf H1) (D2 numscat numtt d)
+      (mkTime start dt len) (mkTime bstart dt n) freqs tf t0 None = inr (numtt, len, o1) /\
+    transfer_func_to_timetraces NumR idft1 (TF3 numscat numtt nxf Hc) (D2 numscat numtt d)
+      (mkTime start dt len) (mkTime bstart dt n) freqs tf t0 None = inr (numtt, len, oc) /\
+    forall t j, oc t j = Cmult c (o1 t j).
+Proof. exact tf_homogeneous. Qed.
+
+(* timetraces=<array>: the call ADDS to the given array what a fresh call returns *)
+Theorem transfer_func_accumulates_on_given : forall (numscat numtt nxf : nat) (d : nat -> nat -> R) (start bstart dt : R)
+    (len n t0 : Z) (freqs : list R) (tf : list C),
+  length tf = length freqs -> (nxf = 1 \/ nxf = length freqs)%nat -> (1 <= n)%Z -> (1 <= length freqs)%nat ->
+  (Z.even n = true -> (n / 2 < Z.of_nat (length freqs))%Z) ->
+  (forall s t, (s < numscat)%nat -> (t < numtt)%nat -> 0 <= rel_delay d start s t) ->
+  (forall s t, (s < numscat)%nat -> (t < numtt)%nat -> place_ok (q_of d start dt s t) t0 n len = true) ->
+  forall (H : nat -> nat -> nat -> C) (given : nat -> Z -> C),
+  exists o0 o,
+    transfer_func_to_timetraces NumR idft1 (TF3 numscat numtt nxf H) (D2 numscat numtt d)
+      (mkTime start dt len) (mkTime bstart dt n) freqs tf t0 None = inr (numtt, len, o0) /\
+    transfer_func_to_timetraces NumR idft1 (TF3 numscat numtt nxf H) (D2 numscat numtt d)
+      (mkTime start dt len) (mkTime bstart dt n) freqs tf t0 (Some given) = inr (numtt, len, o) /\
+    forall t j, o t j = if (t <? numtt)%nat then Cplus (given t j) (o0 t j) else given t j.
+Proof. exact tf_accumulates. Qed.
+
+(* the complex placement is Signal.place (place_spec, place_integer_delay above) on the real and
+   on the imaginary parts *)
+Theorem complex_placement_is_place : forall (resp out : Z -> C) (n q t0 len : Z),
+  match placec NumR resp n q t0 len out,
+        place NumR (fun j => fst (resp j)) n q t0 len (fun j => fst (out j)),
+        place NumR (fun j => snd (resp j)) n q t0 len (fun j => snd (out j)) with
+  | Some o, Some ore, Some oim => forall j, fst (o j) = ore j /\ snd (o j) = oim j
+  | None, None, None => True
+  | _, _, _ => False
+  end.
+Proof. exact placec_components. Qed.
+
+(* delays on output samples (relative to ANY time origin), single-frequency transfer function,
+   several scatterers: every scatterer adds H[s][t] times the analytic toneburst with its sample i
+   at output sample k(s,t) - t0 + i — no fractional shift *)
+Theorem transfer_func_on_sample_delays : forall (numscat numtt : nat) (H : nat -> nat -> nat -> C) (d : nat -> nat -> R)
+    (k : nat -> nat -> Z) (start bstart dt : R) (len n t0 : Z) (freqs : list R) (tf : list C)
+    (timetraces : option (nat -> Z -> cx)),
+  0 < dt -> length tf = length freqs -> (1 <= n)%Z -> (1 <= length freqs)%nat ->
+  (Z.even n = true -> (n / 2 < Z.of_nat (length freqs))%Z) ->
+  (forall s t, (s < numscat)%nat -> (t < numtt)%nat -> d s t - start = IZR (k s t) * dt /\ (0 <= k s t)%Z) ->
+  (forall s t, (s < numscat)%nat -> (t < numtt)%nat -> place_ok (k s t) t0 n len = true) ->
+  exists out,
+    transfer_func_to_timetraces NumR idft1 (TF3 numscat numtt 1 H) (D2 numscat numtt d)
+      (mkTime start dt len) (mkTime bstart dt n) freqs tf t0 timetraces = inr (numtt, len, out) /\
+    forall t j, (t < numtt)%nat ->
+      out t j = Cplus (out0_of timetraces t j)
+                  (csum (fun s => echo (fun i => Cmult (H s t O) (analytic_toneburst n tf i)) n (k s t) t0 j) numscat).
+Proof. exact tf_on_sample. Qed.
+
+(* END TO END (public call with a 2-D transfer function and 1-D delays): toneburst_f = rfft of a
+   REAL toneburst of n samples, real coefficients c[t], delays on samples k[t]: the real part of
+   timetrace t reproduces c[t] * toneburst[i] at sample k[t] - t0 + i for every i — so the
+   toneburst's time-zero sample t0 lands exactly on sample k[t] — and nothing else is written *)
+Theorem transfer_func_reproduces_toneburst : forall (numtt : nat) (c d : nat -> R) (k : nat -> Z) (xr : nat -> R)
+    (start bstart dt : R) (len n t0 : Z) (freqs : list R) (tf : list C),
+  0 < dt -> (1 <= n)%Z -> length freqs = Z.to_nat (n / 2 + 1) -> length tf = length freqs ->
+  (forall m, (m < length tf)%nat -> nth m tf (RtoC 0) = dft (fun i => RtoC (xr i)) (Z.to_nat n) m) ->
+  (forall t, (t < numtt)%nat -> d t - start = IZR (k t) * dt /\ (0 <= k t)%Z) ->
+  (forall t, (t < numtt)%nat -> place_ok (k t) t0 n len = true) ->
+  exists out,
+    transfer_func_to_timetraces NumR idft1 (TF2 numtt 1 (fun t _ => RtoC (c t))) (D1 numtt d)
+      (mkTime start dt len) (mkTime bstart dt n) freqs tf t0 None = inr (numtt, len, out) /\
+    forall t, (t < numtt)%nat ->
+      (forall i, (0 <= i < n)%Z -> fst (out t (k t - t0 + i)%Z) = c t * xr (Z.to_nat i)) /\
+      (forall j, (j < k t - t0 \/ k t - t0 + n <= j)%Z -> out t j = RtoC 0).
+Proof. exact tf_on_sample_reproduces_toneburst. Qed.
+
+(* -- non-vacuity of the hypotheses of the extension ------------------------------------------- *)
+(* make_toneburst: 5 cycles at 5 MHz sampled at 25 MHz, 30 samples asked: accepted (so are
+   num_samples=None, 25); 7 samples: "time vector is too short"; dt = 0: "negative time step" *)
+Example make_toneburst_hypotheses :
+  0 < / 25 /\ 0 < 5 /\ (0 < 30)%Z /\ (pulse_len NumR 5%R 5%R (/ 25)%R <= 30)%Z /\
+  toneburst_args_ok NumR 5 5 (/ 25) (Some 30%Z) = true /\
+  make_toneburst NumR 5 5 (/ 25) (Some 7%Z) true true = inl TbTooShort /\
+  make_toneburst NumR 5 5 0 (Some (-3)%Z) false false = inl TbNegStep.
+Proof.
+  assert (H25 : 0 < / 25) by lra. assert (H5 : 0 < 5) by lra.
+  destruct (make_toneburst_error_order 5 5 (/ 25) (Some 7%Z) true true) as (_ & _ & _ & _ & E5).
+  destruct (make_toneburst_error_order 5 5 0 (Some (-3)%Z) false false) as (E1 & _).
+  repeat split; try assumption; try (rewrite pulse_len_example; lia).
+  - apply make_toneburst_accepted_iff with (wrap := false) (an := false).
+    pose proof (make_toneburst_real_array 5 5 (/ 25) H25 H5 H5 (Some 30%Z) false) as Hr. cbv zeta in Hr.
+    destruct Hr as (l & El & _); [lia | rewrite pulse_len_example; lia |]. exists l. exact El.
+  - apply E5; try assumption; [|discriminate]. intros n En. injection En as <-. rewrite pulse_len_example. lia.
+  - apply E1. lra.
+Qed.
+
+(* make_toneburst2 defaults (num_before=2, num_after=1, use_fast_len): 4*25 = 100 = 2^2 5^2 is its
+   own fast length; 3*25 = 75 = 3*5^2 as well (an ODD padded length) *)
+Example make_toneburst2_hypotheses :
+  (let M := pulse_len NumR 5 5 (/ 25) in
+   next_fast_len (2 * M + M + 1 * M)%Z = Some 100%Z /\ (2 * M + M + 1 * M <= 100)%Z /\
+   next_fast_len (1 * M + M + 1 * M)%Z = Some 75%Z) /\
+  next_fast_len 121 = Some 125%Z /\ next_fast_len 127 = Some 128%Z /\ is_5smooth 126 = false.
+Proof. cbv zeta. rewrite pulse_len_example. repeat split; try reflexivity; try lia. Qed.
+
+(* the weight table: n = 8 with the 5 bins of rfft, n = 7 with 4 bins, too few bins, too many bins *)
+Example hilbert_table_examples :
+  hilbert_table 8 5 = Some (1 :: 2 :: 2 :: 2 :: 1 :: nil)%Z /\ hilbert_table 7 4 = Some (1 :: 2 :: 2 :: 2 :: nil)%Z /\
+  hilbert_table 8 4 = None /\ hilbert_table 7 3 = Some (1 :: 2 :: 2 :: nil)%Z /\
+  hilbert_table 4 5 = Some (1 :: 2 :: 1 :: 0 :: 0 :: nil)%Z /\ hilbert_table 5 0 = None.
+Proof. repeat split; reflexivity. Qed.
+
+(* rfft_to_hilbert of a 2 x 3 x 4 array with n = 3 along axis -2 (= axis 1): the hypotheses hold
+   and the result has shape 2 x 3 x 4 again; along axis -1 (4 bins): 2 x 3 x 3 *)
+Example rfft_to_hilbert_hypotheses :
+  py_index (Z.of_nat (length (2 :: 3 :: 4 :: nil)%nat)) (-2) = Some 1%nat /\
+  hilbert_table 3 (nth 1 (2 :: 3 :: 4 :: nil)%nat O) = Some (1 :: 2 :: 0 :: nil)%Z /\
+  upd_nth (2 :: 3 :: 4 :: nil)%nat 1 (Z.to_nat 3) = (2 :: 3 :: 4 :: nil)%nat /\
+  py_index 3 (-1) = Some 2%nat /\ upd_nth (2 :: 3 :: 4 :: nil)%nat 2 (Z.to_nat 3) = (2 :: 3 :: 3 :: nil)%nat /\
+  py_index 3 3 = None /\ py_index 3 (-4) = None.
+Proof. repeat split; reflexivity. Qed.
+
+(* transfer_func_closed_form etc.: 2 scatterers x 2 timetraces, FRACTIONAL delays k + 1/4 samples
+   (k = 3 + s + 2t), dt = 1, toneburst of n = 4 samples with its 3 rfft bins, window of 16 samples,
+   t0 = 1: every hypothesis holds *)
+Example transfer_func_hypotheses :
+  let d := fun s t : nat => IZR (Z.of_nat (3 + s + 2 * t)) + / 4 in
+  let freqs := (0 :: / 4 :: / 2 :: nil) in
+  let tf := (RtoC 1 :: RtoC 1 :: RtoC 1 :: nil) in
+  length tf = length freqs /\ (1 <= 4)%Z /\ (1 <= length freqs)%nat /\
+  (Z.even 4 = true -> (4 / 2 < Z.of_nat (length freqs))%Z) /\
+  (forall s t, (s < 2)%nat -> (t < 2)%nat -> 0 <= rel_delay d 0 s t) /\
+  (forall s t, (s < 2)%nat -> (t < 2)%nat -> place_ok (q_of d 0 1 s t) 1 4 16 = true) /\
+  place_ok (q_of d 0 1 0 1) 1 4 7 = false.
+Proof.
+  cbv zeta.
+  assert (Hq : forall k : Z, delay_idx NumR (IZR k + / 4 - 0) 1 = k).
+  { intros k. unfold delay_idx. cbn [NumR ndiv nround]. apply Flocq.Core.Generic_fmt.Znearest_imp.
+    replace ((IZR k + / 4 - 0) / 1 - IZR k) with (/ 4) by field. rewrite Rabs_pos_eq; lra. }
+  split; [reflexivity|]. split; [lia|]. split; [simpl; lia|]. split; [intros _; reflexivity|].
+  split; [|split].
+  - intros s t Hs Ht. unfold rel_delay. assert (0 <= IZR (Z.of_nat (3 + s + 2 * t))) by (apply IZR_le; lia). lra.
+  - intros s t Hs Ht. unfold q_of, rel_delay. rewrite Hq.
+    destruct s as [|[|s]]; [| |lia]; (destruct t as [|[|t]]; [| |lia]); reflexivity.
+  - unfold q_of, rel_delay. rewrite Hq. reflexivity.
+Qed.
+
+(* transfer_func_reproduces_toneburst: any time origin and step, delays start + k*dt, the spectrum
+   list built from the transform of a real 4-sample toneburst *)
+Example transfer_func_on_sample_hypotheses : forall (xr : nat -> R) (start : R),
+  let x := fun i => RtoC (xr i) in
+  let tf := (dft x 4 0 :: dft x 4 1 :: dft x 4 2 :: nil) in
+  let d := fun t : nat => start + IZR (Z.of_nat (5 + t)) * / 25 in
+  length (0 :: 10 :: 20 :: nil) = Z.to_nat (4 / 2 + 1) /\
+  (forall m, (m < length tf)%nat -> nth m tf (RtoC 0) = dft x (Z.to_nat 4) m) /\
+  (forall t, (t < 3)%nat -> d t - start = IZR (Z.of_nat (5 + t)) * / 25 /\ (0 <= Z.of_nat (5 + t))%Z) /\
+  (forall t, (t < 3)%nat -> place_ok (Z.of_nat (5 + t)) 1 4 16 = true).
+Proof.
+  intros xr start. cbv zeta. repeat split.
+  - intros m Hm. cbn [length] in Hm. destruct m as [|[|[|m]]]; try reflexivity. lia.
+  - ring.
+  - lia.
+  - intros t Ht. destruct t as [|[|[|t]]]; try reflexivity. lia.
+Qed.
